@@ -12,6 +12,8 @@ import Fca.Model.LatticeQuery
 import Fca.Spec.LatticeQuery
 import Fca.Lemmas.LatticeQueryLabels
 import Fca.Lemmas.LatticeQueryC04
+import Fca.Lemmas.C04Diagram
+import Fca.Lemmas.C04Reach
 namespace Fca.C04
 open Fca Fca.LQ Fca.Spec
 
@@ -211,5 +213,34 @@ theorem model_holdsC04 (t : Table) (cs : Lat) (H : IsConceptList t cs)
     rw [hget _ i hi] at hgi ⊢
     rw [hget _ j hj] at haj
     exact (table_reconstructed t cs H ord ho g a hg ha i j hi hj hgi haj).2
+
+/-- the table is recovered from the diagram A USER IS SHOWN: the reduced labels and the drawn cover edges
+    (`parents_dict`) alone — "below or equal" read as reachability along the edges (`Spec.reachAll`, what
+    `Spec.holdsC04Edges` uses) is the lattice order, so the checker applied to the drawn edges accepts the model -/
+theorem model_holdsC04Edges (t : Table) (cs : Lat) (H : IsConceptList t cs)
+    (ord : List Nat → List Nat) (ho : PQ.IsOrder ord) :
+    Spec.holdsC04Edges t ((List.range cs.length).map (newExtentI cs ord))
+      ((List.range cs.length).map (newIntentI cs ord)) ((List.range cs.length).map (parents cs ord)) = true := by
+  unfold Spec.holdsC04Edges
+  rw [holdsC04_iff]
+  have hget : ∀ (f : Nat → List Nat) i, i < cs.length → ((List.range cs.length).map f).getD i [] = f i := by
+    intro f i hi
+    simp [List.getD_eq_getElem?_getD, List.getElem?_map, List.getElem?_range hi]
+  refine LQ.C04Holds.congr_anc ((holdsC04_iff _ _ _ _).mp (model_holdsC04 t cs H ord ho)) ?_ ?_
+  · simp [Spec.reachAll]
+  · intro i hi j
+    have hi' : i < cs.length := by simpa using hi
+    have e : (Spec.reachAll ((List.range cs.length).map (parents cs ord))).getD i [] =
+        Spec.reachFrom ((List.range cs.length).map (parents cs ord)) i := by
+      unfold Spec.reachAll
+      simp [List.getD_eq_getElem?_getD, List.getElem?_map, List.getElem?_range hi']
+    rw [e, hget _ i hi']
+    exact H.mem_reachFrom ho hi' j
+
+/-- the hypothesis `IsConceptList` is decided by the subset-free test the driver uses for wide tables
+    (duplicate-free list of concepts containing the top extent and closed under cutting an extent by one attribute) -/
+theorem isConceptListFast_iff (t : Table) (cs : Lat) :
+    Spec.isConceptListFast t cs = true ↔ IsConceptList t cs :=
+  LQ.isConceptListFast_iff t cs
 
 end Fca.C04
